@@ -73,10 +73,11 @@ type State struct {
 	trace   []Ev
 	decided map[RV]bool
 	canon   map[string]RV // canonical load of a cell with unknown content
+	nilOf   map[RV]bool   // values whose nil test was decided at a branch on this path: true = nil
 }
 
 func newState() *State {
-	return &State{canon: map[string]RV{}, mem: map[string]RV{}, bind: map[RV][]RV{}, sel: map[RV]int{}, phi: map[RV]RV{}, visits: map[[2]int]int{}, dargs: map[*Frame][][]RV{},
+	return &State{nilOf: map[RV]bool{}, canon: map[string]RV{}, mem: map[string]RV{}, bind: map[RV][]RV{}, sel: map[RV]int{}, phi: map[RV]RV{}, visits: map[[2]int]int{}, dargs: map[*Frame][][]RV{},
 		defers: map[*Frame][]*ssa.Defer{}, decided: map[RV]bool{}}
 }
 
@@ -84,6 +85,9 @@ func (s *State) clone() *State {
 	n := newState()
 	for k, v := range s.mem {
 		n.mem[k] = v
+	}
+	for k, v := range s.nilOf {
+		n.nilOf[k] = v
 	}
 	for k, v := range s.bind {
 		n.bind[k] = v
@@ -653,6 +657,7 @@ func (e *PPA) enter(fr *Frame, from, b *ssa.BasicBlock, st *State, k cont) {
 		for _, in := range b.Instrs {
 			if v, ok := in.(ssa.Value); ok {
 				delete(st.decided, RV{fr, v})
+				delete(st.nilOf, RV{fr, v})
 			}
 		}
 	}
@@ -726,7 +731,7 @@ func (e *PPA) exec(fr *Frame, b *ssa.BasicBlock, i int, st *State, k cont) {
 			ev := Ev{In: in, F: fr, Args: []RV{e.Resolve(st, addr), val}}
 			if fa, ok := in.Addr.(*ssa.FieldAddr); ok {
 				lbl = "store:" + qualField(in.Addr)
-				ev.Base = e.Resolve(st, RV{fr, fa.X})
+				ev.Base = e.baseObj(st, RV{fr, fa.X})
 				ev.Field = fieldOf(fa)
 			}
 			if ia, ok := in.Addr.(*ssa.IndexAddr); ok {
@@ -750,14 +755,14 @@ func (e *PPA) exec(fr *Frame, b *ssa.BasicBlock, i int, st *State, k cont) {
 			}
 			e.emit(st, ev)
 		case *ssa.Send:
-			e.emit(st, Ev{Label: "send:" + Expr(in.Chan), In: in, F: fr, Blocking: true, Args: []RV{e.Resolve(st, RV{fr, in.Chan}), e.Resolve(st, RV{fr, in.X})}})
+			e.emit(st, Ev{Label: "send:" + Expr(in.Chan), In: in, F: fr, Blocking: true, Field: fieldOf(in.Chan), Args: []RV{e.Resolve(st, RV{fr, in.Chan}), e.Resolve(st, RV{fr, in.X})}})
 		case *ssa.UnOp:
 			if in.Op == token.ARROW {
-				e.emit(st, Ev{Label: "recv:" + Expr(in.X), In: in, F: fr, Blocking: true, Args: []RV{e.Resolve(st, RV{fr, in.X})}})
+				e.emit(st, Ev{Label: "recv:" + Expr(in.X), In: in, F: fr, Blocking: true, Field: fieldOf(in.X), Args: []RV{e.Resolve(st, RV{fr, in.X})}})
 			}
 			if in.Op == token.MUL && e.TraceLoads {
 				if fa, ok := in.X.(*ssa.FieldAddr); ok {
-					e.emit(st, Ev{Label: "load:" + qualField(fa), In: in, F: fr, Base: e.Resolve(st, RV{fr, fa.X}), Field: fieldOf(fa)})
+					e.emit(st, Ev{Label: "load:" + qualField(fa), In: in, F: fr, Base: e.baseObj(st, RV{fr, fa.X}), Field: fieldOf(fa)})
 				}
 			}
 		case *ssa.Lookup:
@@ -798,7 +803,7 @@ func (e *PPA) exec(fr *Frame, b *ssa.BasicBlock, i int, st *State, k cont) {
 					if sst.Dir == types.SendOnly {
 						dir = "send"
 					}
-					ev := Ev{Label: "select:" + dir + ":" + Expr(sst.Chan), In: in, F: fr, Blocking: in.Blocking, Args: []RV{e.Resolve(st, RV{fr, sst.Chan})}}
+					ev := Ev{Label: "select:" + dir + ":" + Expr(sst.Chan), In: in, F: fr, Blocking: in.Blocking, Field: fieldOf(sst.Chan), Args: []RV{e.Resolve(st, RV{fr, sst.Chan})}}
 					if sst.Send != nil {
 						ev.Args = append(ev.Args, e.Resolve(st, RV{fr, sst.Send}))
 					}
@@ -822,7 +827,7 @@ func (e *PPA) exec(fr *Frame, b *ssa.BasicBlock, i int, st *State, k cont) {
 			// receiver given as the address of a field (defer x.mu.Unlock()): remember which x (extra last element)
 			if len(da) > 0 {
 				if fa, ok := da[0].V.(*ssa.FieldAddr); ok {
-					da = append(da, e.Resolve(st, RV{da[0].F, fa.X}))
+					da = append(da, e.baseObj(st, RV{da[0].F, fa.X}))
 				}
 			}
 			st.dargs[fr] = append(st.dargs[fr], da)
@@ -888,6 +893,21 @@ func (e *PPA) exec(fr *Frame, b *ssa.BasicBlock, i int, st *State, k cont) {
 			s2 := st.clone()
 			st.decided[rc] = true
 			st.decided[c] = true
+			// remember the outcome of a nil test for later tests of the same value (through other instructions)
+			if bo, ok := rc.V.(*ssa.BinOp); ok && (bo.Op == token.EQL || bo.Op == token.NEQ) {
+				x, y := e.Resolve(st, RV{rc.F, bo.X}), e.Resolve(st, RV{rc.F, bo.Y})
+				var other RV
+				has := false
+				if isNilConst(y.V) {
+					other, has = x, true
+				} else if isNilConst(x.V) {
+					other, has = y, true
+				}
+				if has && stableValue(other.V) {
+					st.nilOf[other] = bo.Op == token.EQL
+					s2.nilOf[other] = bo.Op != token.EQL
+				}
+			}
 			if e.TraceBranches {
 				e.emit(st, Ev{Label: "if", In: in, F: fr, Args: []RV{rc}, Taken: true})
 				e.emit(s2, Ev{Label: "if", In: in, F: fr, Args: []RV{rc}, Taken: false})
@@ -1138,7 +1158,7 @@ func (e *PPA) callEv(st *State, fr *Frame, in ssa.CallInstruction, prefix string
 	// receiver given as the address of a struct field (x.mu.Lock()): remember the struct
 	if len(ev.Args) > 0 {
 		if fa, ok := ev.Args[0].V.(*ssa.FieldAddr); ok {
-			ev.Base = e.Resolve(st, RV{ev.Args[0].F, fa.X})
+			ev.Base = e.baseObj(st, RV{ev.Args[0].F, fa.X})
 			ev.Field = fieldOf(fa)
 			// an object computed inside a loop is a different object on every iteration
 			if di, ok := ev.Base.V.(ssa.Instruction); ok && ev.Base.F != nil && di.Block() != nil {
@@ -1326,9 +1346,23 @@ func (e *PPA) foldBin(st *State, fr *Frame, b *ssa.BinOp) (bool, bool) {
 			if knownNonNil(other.V) {
 				return b.Op == token.NEQ, true
 			}
+			if isNil, ok := st.nilOf[other]; ok {
+				return isNil == (b.Op == token.EQL), true
+			}
 		}
 	}
 	return false, false
+}
+
+// stableValue: an SSA register whose value cannot change between two tests on one path (not a load).
+func stableValue(v ssa.Value) bool {
+	switch x := v.(type) {
+	case *ssa.Extract, *ssa.Call, *ssa.Parameter, *ssa.TypeAssert, *ssa.Lookup, *ssa.Phi, *ssa.FreeVar:
+		return true
+	case *ssa.UnOp:
+		return x.Op != token.MUL
+	}
+	return false
 }
 
 func knownNonNil(v ssa.Value) bool {
@@ -1374,8 +1408,32 @@ func qualField(addr ssa.Value) string {
 		return Expr(addr)
 	}
 	t := deref(fa.X.Type())
+	if own, ok := promotedOwner[fieldVar(fa.X.Type(), fa.Field)]; ok {
+		// a field that moved into an embedded struct keeps the name it had as a direct field
+		return own + "." + fieldName(fa.X.Type(), fa.Field)
+	}
 	return normType(types.TypeString(t, shortQ)) + "." + fieldName(fa.X.Type(), fa.Field)
 }
+
+// baseObj resolves the struct a field belongs to; the address of an embedded struct (x.inner, reached
+// implicitly through promotion) stands for the outer object, so x.mu and x.inner.mu name one object.
+func (e *PPA) baseObj(st *State, rv RV) RV {
+	r := e.Resolve(st, rv)
+	for i := 0; i < 4; i++ {
+		fa, ok := r.V.(*ssa.FieldAddr)
+		if !ok {
+			break
+		}
+		if v := fieldVar(fa.X.Type(), fa.Field); v == nil || !v.Embedded() {
+			break
+		}
+		r = e.Resolve(st, RV{r.F, fa.X})
+	}
+	return r
+}
+
+// promotedOwner: fields resolved through an embedded struct -> the reference owner type ("client.ReconnectClient").
+var promotedOwner = map[*types.Var]string{}
 
 // ---------------- trace helpers ----------------
 
